@@ -98,7 +98,8 @@ int main(int argc, char **argv)
     else if (!strcmp(argv[i], "--payload") && i + 1 < argc)
       only = argv[++i];
   }
-  std::vector<PayloadEntry> ps = {entry_int(), entry_string(), entry_tracked(), entry_doubleoff(), entry_trackedoff()};
+  std::vector<PayloadEntry> ps = {entry_int(), entry_string(), entry_tracked(), entry_doubleoff(), entry_trackedoff(),
+      entry_a32(), entry_a64(), entry_a32off(), entry_a64off(), entry_a32arr(), entry_a64arr()};
 
   if (vr::replaying()) {
     reexec_symbolized(argv);
